@@ -298,7 +298,67 @@ def r21_6(ctx):
     return rr
 
 
-RULES = [r21_1, r21_2, r21_3, r21_4, r21_5, r21_6]
+def r21_7(ctx):
+    rr = RuleResult("R21.7", "COVER", "the positional TaskRef arguments of a fused record are built one per dependency slot (length-preserving), in slot order", min_instances=1)
+    repo = ctx.repo
+    m = repo.mod("dask_array._frisky.fused_blockwise")
+    cls = m.classes.get("FusedBlockwiseLayer")
+    need(cls is not None, "FusedBlockwiseLayer")
+    from ..dataflow import Defs
+
+    found = False
+    for mf in cls.methods.values():
+        recs = [n for n in body_walk(mf.node) if isinstance(n, ast.Call) and isinstance(n.func, ast.Attribute) and n.func.attr == "append" and unparse(n.func.value) == "records"]
+        if not recs:
+            continue
+        defs = Defs(mf.node)
+        slot_names = {k for k, vs in defs.defs.items() if k == "slots"}
+        if not slot_names:
+            continue
+        found = True
+        # follow: args -> refs -> dep_keys -> slots; every step must be a plain comprehension (no filter) or tuple()/list() of the previous
+        def preserves(name, seen=()):
+            """(ok, why): name is derived from `slots` by length- and order-preserving steps only."""
+            if name == "slots":
+                return True, ""
+            if name in seen:
+                return False, f"cyclic definition of {name}"
+            vs = defs.defs.get(name, [])
+            if not vs:
+                return False, f"{name} is not defined here"
+            for v in vs:
+                ok, why = expr_preserves(v, seen + (name,))
+                if not ok:
+                    return False, why
+            return True, ""
+
+        def expr_preserves(v, seen):
+            if isinstance(v, ast.Name):
+                return preserves(v.id, seen)
+            if isinstance(v, (ast.ListComp, ast.GeneratorExp)):
+                if len(v.generators) != 1 or v.generators[0].ifs:
+                    return False, f"filtered or nested comprehension `{unparse(v)[:60]}`"
+                return expr_preserves(v.generators[0].iter, seen)
+            if isinstance(v, ast.Call) and dotted(v.func) in ("tuple", "list") and len(v.args) == 1:
+                return expr_preserves(v.args[0], seen)
+            if isinstance(v, ast.BinOp) and isinstance(v.op, ast.Add):
+                return expr_preserves(v.left, seen)  # tuple(refs) + seeds: refs first, seeds appended
+            return False, f"`{unparse(v)[:70]}` is not a length-preserving image of the slots"
+
+        for r in recs:
+            tup = r.args[0] if r.args else None
+            if not isinstance(tup, ast.Tuple) or len(tup.elts) < 5:
+                continue
+            args_e, deps_e = tup.elts[2], tup.elts[4]
+            ok, why = expr_preserves(args_e, ())
+            rr.inst(site(mf, r)[:160], args=unparse(args_e), deps=unparse(deps_e), one_ref_per_slot=ok)
+            if not ok:
+                ctx.finding(rr, site(mf, r)[:160], f"the positional arguments of the fused record are not one TaskRef per dependency slot: {why}; the shared fused callable binds its inputs by position, so a de-duplicated or filtered list shifts every later argument", func=mf, node=r)
+    need(found, "the records loop of FusedBlockwiseLayer (records.append over slots)")
+    return rr
+
+
+RULES = [r21_1, r21_2, r21_3, r21_4, r21_5, r21_6, r21_7]
 
 LEVEL_TEXT = (
     "Static decision of the decline-or-complete discipline of the records path: CFG must-pass-through of the completeness "
